@@ -83,3 +83,23 @@ func VH_C17_checkQuorum() {
 	}
 	vReach("end")
 }
+
+//verif:check C17,C11,C08 stubs=env,valuefile,abslog reach=config-pending,end desc="leader.notifyFlr: a configuration handed to a replication (the node's new voting right: it decides whether the replication sends idle heartbeats) is not lost when the replication has not picked the update up before the next one arrives: whatever update is pending for a replication after two notifications, the first of which carried the configuration, still carries it; log view and commit index are those of the latest notification" bounds="2..3 nodes; two notifications without the replication running in between; symbolic commit index"
+func VH_C17_notifyFlr_keeps_config() {
+	n := 2 + vChoice(2)
+	r, l, _ := vMkLeader(n, 2, true)
+	r.configs.Committed = r.configs.Latest
+	l.notifyFlr(true)
+	c1 := r.commitIndex
+	r.commitIndex = vU64("commitIndex2")
+	vAssume(r.commitIndex >= c1 && r.commitIndex <= r.lastLogIndex)
+	l.notifyFlr(false)
+	for _, repl := range l.repls {
+		vAssert(len(repl.leaderUpdateCh) == 1, "N-one-update-pending")
+		u := <-repl.leaderUpdateCh
+		vReach("config-pending")
+		vAssert(u.config != nil, "N-pending-update-still-carries-the-configuration")
+		vAssert(u.commitIndex == r.commitIndex && u.log != nil && u.log.LastIndex() == r.lastLogIndex, "N-pending-update-is-the-latest-view")
+	}
+	vReach("end")
+}
